@@ -165,7 +165,7 @@ def run(ctx):
         consts = {k: v for k, v in consts.items() if k != "NetClean"}
         res = rc.model_check(ctx, name, consts, INV, subst, workers=8 if q else 14, timeout=3400)
         states += res.distinct; transitions += res.generated
-        runs.append({"config": name, "distinct": res.distinct, "generated": res.generated, "depth": res.depth, "ok": res.ok, "constants": {k: str(v) for k, v in consts.items()}})
+        runs.append({"config": name, "distinct": res.distinct, "generated": res.generated, "depth": res.depth, "ok": res.ok, "exhaustive": not res.partial, "constants": {k: str(v) for k, v in consts.items()}})
         if not res.ok:
             ctx.violation("RouterSys.tla (model of the current router code) violates %s in configuration %s" % (res.invariant_violated or "a property", name),
                           {"tlc_counterexample": vlib.tlc_counterexample(res)[:30000]})
